@@ -130,8 +130,33 @@ func inlinable(d *ast.FuncDecl) bool {
 		switch x := n.(type) {
 		case *ast.FuncLit:
 			return false
-		case *ast.DeferStmt, *ast.LabeledStmt:
+		case *ast.LabeledStmt:
 			ok = false
+		case *ast.DeferStmt:
+			// a deferred plain call with side-effect free operands, written at the top level of the body, is
+			// executed at every later return instead (the forms differ only when the body panics)
+			top := false
+			for _, st := range d.Body.List {
+				if st == ast.Stmt(x) {
+					top = true
+				}
+			}
+			if !top {
+				ok = false
+				break
+			}
+			if _, isLit := x.Call.Fun.(*ast.FuncLit); isLit {
+				ok = false
+				break
+			}
+			if !simpleExpr(x.Call.Fun) {
+				ok = false
+			}
+			for _, a := range x.Call.Args {
+				if !simpleExpr(a) {
+					ok = false
+				}
+			}
 		case *ast.BranchStmt:
 			if x.Tok == token.GOTO {
 				ok = false
@@ -147,9 +172,10 @@ func inlinable(d *ast.FuncDecl) bool {
 	return ok
 }
 
-// importsCompatible: every package name used in the helper's file subset (body + signature) resolves to
-// the same import in the caller's file.
-func importsCompatible(info *types.Info, helper *ast.FuncDecl, caller *ast.File, pk *packages.Package) bool {
+// importsNeeded: every package name used by the helper must resolve, in the caller's file, to the same import.
+// Names the caller's file does not import yet are returned (name -> path) so that they can be added; a name
+// bound to another path (or to another object of the caller's file) makes the helper incompatible.
+func importsNeeded(info *types.Info, helper *ast.FuncDecl, caller *ast.File, pk *packages.Package) (map[string]string, bool) {
 	callerImports := map[string]string{} // name -> path
 	for _, is := range caller.Imports {
 		path := strings.Trim(is.Path.Value, `"`)
@@ -163,6 +189,7 @@ func importsCompatible(info *types.Info, helper *ast.FuncDecl, caller *ast.File,
 		}
 		callerImports[name] = path
 	}
+	missing := map[string]string{}
 	ok := true
 	ast.Inspect(helper, func(n ast.Node) bool {
 		id, isId := n.(*ast.Ident)
@@ -170,13 +197,23 @@ func importsCompatible(info *types.Info, helper *ast.FuncDecl, caller *ast.File,
 			return true
 		}
 		if pn, isPkg := info.Uses[id].(*types.PkgName); isPkg {
-			if callerImports[id.Name] != pn.Imported().Path() {
+			have, imported := callerImports[id.Name]
+			switch {
+			case imported && have == pn.Imported().Path():
+			case imported:
 				ok = false
+			default:
+				// the name must not denote something else at package level
+				if pk.Types != nil && pk.Types.Scope().Lookup(id.Name) != nil {
+					ok = false
+				} else {
+					missing[id.Name] = pn.Imported().Path()
+				}
 			}
 		}
 		return ok
 	})
-	return ok
+	return missing, ok
 }
 
 // Normalize returns an overlay in which new helpers are inlined, and notes describing what was done.
@@ -224,6 +261,8 @@ func Normalize(dir string, overlay map[string][]byte, goarch string, baseline ma
 			break
 		}
 		edits := map[string][]edit{}
+		addImports := map[string]map[string]string{}
+		pkgEnd := map[string]int{}
 		src := func(name string) []byte {
 			if b, ok := cur[name]; ok {
 				return b
@@ -276,7 +315,8 @@ func Normalize(dir string, overlay map[string][]byte, goarch string, baseline ma
 							if nested && c.obj.Type().(*types.Signature).Results().Len() != 1 {
 								continue
 							}
-							if !importsCompatible(pk.TypesInfo, c.decl, f, pk) {
+							missing, compatible := importsNeeded(pk.TypesInfo, c.decl, f, pk)
+							if !compatible {
 								continue
 							}
 							counter++
@@ -297,6 +337,15 @@ func Normalize(dir string, overlay map[string][]byte, goarch string, baseline ma
 								continue
 							}
 							edits[fname] = append(edits[fname], es...)
+							if len(missing) > 0 {
+								if addImports[fname] == nil {
+									addImports[fname] = map[string]string{}
+								}
+								for nm, pth := range missing {
+									addImports[fname][nm] = pth
+								}
+								pkgEnd[fname] = pk.Fset.PositionFor(f.Name.End(), false).Offset
+							}
 							n++
 							notes = append(notes, fmt.Sprintf("inlined new helper %s into %s", FuncDeclKey(pk.PkgPath, c.decl), FuncDeclKey(pk.PkgPath, fd)))
 						}
@@ -306,6 +355,18 @@ func Normalize(dir string, overlay map[string][]byte, goarch string, baseline ma
 		})
 		if n == 0 {
 			break
+		}
+		for fname, imps := range addImports {
+			var names []string
+			for nm := range imps {
+				names = append(names, nm)
+			}
+			sort.Strings(names)
+			var b strings.Builder
+			for _, nm := range names {
+				fmt.Fprintf(&b, "; import %s %q", nm, imps[nm])
+			}
+			edits[fname] = append(edits[fname], edit{pkgEnd[fname], pkgEnd[fname], b.String()})
 		}
 		for fname, es := range edits {
 			text := src(fname)
@@ -666,12 +727,39 @@ func inlineAt(pk *packages.Package, file *ast.File, text []byte, st ast.Stmt, ca
 			namedRes = append(namedRes, "")
 		}
 	}
+	// deferred calls written at the top level of the helper: run at every return that follows them
+	type dfr struct {
+		start, end int
+		call       string
+		pos        token.Pos
+	}
+	var defers []dfr
+	for _, st := range c.decl.Body.List {
+		if ds, ok := st.(*ast.DeferStmt); ok {
+			defers = append(defers, dfr{off(ds.Pos()), off(ds.End()), hslice(ds.Call.Pos(), ds.Call.End()), ds.Pos()})
+		}
+	}
+	deferredBefore := func(pos token.Pos) string {
+		var parts []string
+		for i := len(defers) - 1; i >= 0; i-- {
+			if defers[i].pos < pos {
+				parts = append(parts, defers[i].call)
+			}
+		}
+		if len(parts) == 0 {
+			return ""
+		}
+		return strings.Join(parts, "; ") + "; "
+	}
 	// body with returns rewritten
 	type rr struct {
 		start, end int
 		text       string
 	}
 	var rets []rr
+	for _, d := range defers {
+		rets = append(rets, rr{d.start, d.end, ""})
+	}
 	label := pfx + "end"
 	usedLabel := false
 	okBody := true
@@ -683,7 +771,7 @@ func inlineAt(pk *packages.Package, file *ast.File, text []byte, st ast.Stmt, ca
 			var t string
 			switch {
 			case len(ress) == 0:
-				t = "goto " + label
+				t = "{ " + deferredBefore(x.Pos()) + "goto " + label + " }"
 			case len(x.Results) == 0:
 				// bare return with named results
 				if len(namedRes) != len(ress) {
@@ -698,13 +786,13 @@ func inlineAt(pk *packages.Package, file *ast.File, text []byte, st ast.Stmt, ca
 						vals = append(vals, nm)
 					}
 				}
-				t = "{ " + strings.Join(rnames, ", ") + " = " + strings.Join(vals, ", ") + "; goto " + label + " }"
+				t = "{ " + strings.Join(rnames, ", ") + " = " + strings.Join(vals, ", ") + "; " + deferredBefore(x.Pos()) + "goto " + label + " }"
 			default:
 				var vals []string
 				for _, e := range x.Results {
 					vals = append(vals, hslice(e.Pos(), e.End()))
 				}
-				t = "{ " + strings.Join(rnames, ", ") + " = " + strings.Join(vals, ", ") + "; goto " + label + " }"
+				t = "{ " + strings.Join(rnames, ", ") + " = " + strings.Join(vals, ", ") + "; " + deferredBefore(x.Pos()) + "goto " + label + " }"
 			}
 			usedLabel = true
 			rets = append(rets, rr{off(x.Pos()), off(x.End()), t})
@@ -724,6 +812,9 @@ func inlineAt(pk *packages.Package, file *ast.File, text []byte, st ast.Stmt, ca
 	hpos := fset.PositionFor(c.decl.Body.Lbrace, false)
 	fmt.Fprintf(&b, "//line %s:%d\n", hpos.Filename, hpos.Line)
 	b.Write(body)
+	if len(ress) == 0 && len(defers) > 0 {
+		b.WriteString("\n" + strings.TrimSuffix(deferredBefore(c.decl.Body.Rbrace), "; "))
+	}
 	b.WriteString("\n}\n")
 	if usedLabel {
 		fmt.Fprintf(&b, "%s:\n{\n}\n", label)
